@@ -187,6 +187,7 @@ def check_mesh(ctx, name, mesh, fixed, with_model=True):
     if r > 1e-9:
         fail("cov_hermitian", r)
     al, be, c0 = rng.normal(size=3)
+    c0 = c0 * float(np.abs(mesh.sites).max())  # an offset of the size of the function's variation over the mesh (whatever the units)
     glin = al * mesh.sites[:, 0] + be * mesh.sites[:, 1] + c0
     ref = (al * em.directions[:, 0] + be * em.directions[:, 1]) / em.edge_lengths
     r = relerr(G @ glin - ref, np.abs(ref).max() + 1e-300)
@@ -319,7 +320,16 @@ def after_smoothing(ctx, name, mesh, fixed, with_model=True):
     """"smoothed" meshes of the quantifier, made from a mesh that stays in use: the smoothed mesh obeys the identities,
     and so does the mesh `smooth` was called on (it is the same mesh as before: same sites, same geometry)"""
     before = {k: np.array(v, copy=True) for k, v in dict(sites=mesh.sites, areas=mesh.areas, lengths=mesh.edge_mesh.edge_lengths, centers=mesh.edge_mesh.centers).items()}
-    sm = mesh.smooth(3)
+    try:
+        sm = mesh.smooth(3)
+    except ValueError as e:
+        # the library's own refusal ("Malformed Voronoi cell ..."): Laplacian smoothing can push a boundary cell of a
+        # coarse synthetic mesh inside out; nothing is produced, so there is nothing to check
+        if "Malformed Voronoi cell" not in str(e):
+            raise
+        ctx.count("smoothing_refused_by_the_library")
+        ctx.case((name, "smooth-refused"))
+        return None
     first = None
     now = dict(sites=mesh.sites, areas=mesh.areas, lengths=mesh.edge_mesh.edge_lengths, centers=mesh.edge_mesh.centers)
     moved = [k for k in before if not np.array_equal(before[k], now[k])]
